@@ -78,6 +78,25 @@ def run(ctx):
             src, why = iteration_context(m0)
             okp = src is not None and any(isinstance(x, tuple) and x and x[0] == "call" and sym_is_call(x, "parent") and "SpanRef" in str(x[1]) for x in sym_walk(src))
             detail = why or "the merged map is not the parent's"
+            # ... of the direct parent itself: its labels are already the merged view of the whole ancestry (nearest wins);
+            # walking further (scope(), from_root(), parent().parent()) re-merges in another order
+            def _payload(x):
+                x = strip_sym(x)
+                for _ in range(6):
+                    if x[0] == "field" and strip_sym(x[1])[0] == "downcast" and strip_sym(x[1])[2] == "Some":
+                        x = strip_sym(strip_sym(x[1])[1])
+                    elif sym_is_call(x, "Option<T>::expect", "Option<T>::unwrap"):
+                        x = strip_sym(x[2][0])
+                    else:
+                        break
+                return x
+
+            if okp:
+                exts = [x for x in sym_walk(src) if isinstance(x, tuple) and x and x[0] == "call" and sym_is_call(x, "extensions") and "SpanRef" in str(x[1])]
+                direct = len(exts) == 1 and sym_is_call(_payload(exts[0][2][0]), "parent") and "SpanRef" in str(_payload(exts[0][2][0])[1])
+                if not direct:
+                    okp = False
+                    detail = "the inherited labels are collected from spans other than the direct parent (a walk over the ancestry): with the same field on two ancestors the farther one can win"
             pr = strip_sym(arg_syms(par[0])[0])
             okp = okp and sym_is_call(sym_through(pr, "Option<T>::expect", "Option<T>::unwrap"), "span") and is_param(strip_sym(sym_through(pr, "Option<T>::expect", "Option<T>::unwrap"))[2][1], 2)
             from props.common import actual_of
